@@ -75,6 +75,12 @@ def run_shard(desc):
                 t = ["stmt", [["bin", "=", ["ref", "x"], gen.num_lit(*pa)], ["bin", "/=", ["ref", "x"], gen.num_lit(mb, sb)], ["ref", "x"]]]
             progs.append({"tree": t, "text": ref.Renderer().render(t)})
             labels.append(None)
+            # and the remainder of the same kind of pairs (operands whose scales are far apart included)
+            (m1, s1), (m2, s2) = c09.rand_pair(rnd)
+            if m2 != 0:
+                t = ["bin", "%", gen.num_lit(m1, s1), gen.num_lit(m2, s2)]
+                progs.append({"tree": t, "text": ref.Renderer().render(t)})
+                labels.append(None)
     elif kind == "member":
         # membership / equality over lists of every length 0..40 (and a few long ones): the needle equals exactly one element, written at
         # another scale (1 vs 1.0 vs 1.000), possibly inside a nested list or map, at the first / a middle / the last position, or is absent
